@@ -21,6 +21,37 @@ def load(pid):
 
 
 # ------------------------------------------------------------------------------------------------ worker
+def preload(mod):
+    """import every synkit module the harness imports lazily, then snapshot process-wide state (symx.isolate)"""
+    import re
+
+    from symx import isolate
+
+    if getattr(mod, "_preloaded", False):
+        return
+    files = [mod.__file__, os.path.join(os.path.dirname(mod.__file__), "reactor_common.py"),
+             os.path.join(ROOT, "vf", "graphs.py")]
+    names = set()
+    for f in files:
+        try:
+            src = open(f).read()
+        except OSError:
+            continue
+        names.update(re.findall(r"from\s+(synkit[\w.]*)\s+import", src))
+        names.update(re.findall(r"^\s*import\s+(synkit[\w.]*)", src, flags=re.M))
+    import warnings
+
+    with warnings.catch_warnings():
+        warnings.simplefilter("ignore")
+        for n in sorted(names):
+            try:
+                importlib.import_module(n)
+            except Exception:
+                pass
+    isolate.snapshot()
+    mod._preloaded = True
+
+
 def _jsonable(o):
     from fractions import Fraction
 
@@ -40,6 +71,7 @@ def _work(job):
     from symx.engine import Engine, run_concrete
 
     mod = load(job["pid"])
+    preload(mod)
     fn = mod.HARNESSES[job["h"]]
     params = job["params"]
     alphabet = getattr(mod, "ALPHABET", ())
@@ -284,6 +316,7 @@ def replay_file(path):
 
     body = json.load(open(path))
     mod = load(body["property"])
+    preload(mod)
     fn = mod.HARNESSES[body["harness"]]
     env, st, err = run_concrete(fn, body["params"], body["inputs"], getattr(mod, "ALPHABET", ()))
     clause = body["clause"]
@@ -291,9 +324,9 @@ def replay_file(path):
         if st == "error":
             return True, "real code raised on the concrete input:\n" + err
         return False, "no exception on the concrete input (status %s)" % st
-    if st != "ok":
-        return False, "concrete run status %s: %s" % (st, err)
     hit = [r for r in env.results if r[0] == clause and r[1]]
+    if st != "ok" and not hit:
+        return False, "concrete run status %s: %s" % (st, err)
     if hit:
         return True, "clause %r violated by the real code on the concrete input; detail: %s" % (
             clause, json.dumps(_jsonable(hit[0][2]), default=str)[:2000])
